@@ -15,6 +15,7 @@ package main
 
 import (
 	"encoding/json"
+	"net/url"
 	"flag"
 	"fmt"
 	"os"
@@ -300,6 +301,76 @@ func modePreds(mode int, base string) []string {
 	return nil
 }
 
+// present chooses how the effective document base `base` is presented to the decoders: as the location alone, or as
+// a <base href> (absolute, absolute-path, network-path, same-directory relative, dot-segment relative) together with
+// a location against which the href resolves to `base`. Returns the document (with the base element(s) in its
+// head) and the location to decode with. A later <base>, and an earlier one without href, must not matter.
+func (h *harness) present(doc *Node, base string) (*Node, string) {
+	if base == "" || h.r.Chance(40) {
+		return doc, base
+	}
+	u, err := url.Parse(base)
+	if err != nil || u.Host == "" || u.Scheme == "" || !strings.HasPrefix(u.EscapedPath(), "/") {
+		return doc, base
+	}
+	origin := u.Scheme + "://" + u.Host
+	rest := base[len(origin):] // path ? query # fragment, as written
+	path := u.EscapedPath()
+	slash := strings.LastIndexByte(path, '/')
+	dir, tail := path[:slash+1], rest[slash+1:]
+	if tail == "" || tail[0] == '?' || tail[0] == '#' {
+		tail = "./" + tail
+	}
+	var href, location string
+	switch h.r.Intn(6) {
+	case 0:
+		href, location = base, vh.Pick(h.r, []string{"", "http://elsewhere.example/x/y.html", base, origin + "/unrelated"})
+	case 1:
+		href, location = rest, origin+vh.Pick(h.r, []string{"/some/other/place.html", "/", "/x?y=z"})
+	case 2:
+		href, location = "//"+u.Host+rest, u.Scheme+"://other.example/q/r.html"
+	case 3:
+		href, location = tail, origin+dir+vh.Pick(h.r, []string{"zz.html", "", "zz?k=v#f"})
+	case 4:
+		href, location = "../../"+strings.TrimPrefix(tail, "./"), origin+dir+"sub/deeper/x.html"
+	default:
+		href, location = "../"+strings.TrimPrefix(tail, "./"), origin+dir+"sub/x.html"
+	}
+	var bases []*Node
+	if h.r.Chance(15) {
+		bases = append(bases, E("base", nil)) // no href: not the one
+	}
+	bases = append(bases, E("base", []Attr{{"href", href}}))
+	if h.r.Chance(25) {
+		bases = append(bases, E("base", []Attr{{"href", "http://decoy.example/d/"}}))
+	}
+	head := doc.Kids[0]
+	nhead := &Node{Tag: head.Tag, Attrs: head.Attrs, Kids: append(append([]*Node{}, bases...), head.Kids...)}
+	if h.r.Chance(20) && len(head.Kids) > 0 {
+		// the base element need not come first in the head
+		nhead.Kids = append(append([]*Node{head.Kids[0]}, bases...), head.Kids[1:]...)
+	}
+	ndoc := &Node{Tag: doc.Tag, Attrs: doc.Attrs, Kids: append([]*Node{nhead}, doc.Kids[1:]...)}
+	h.rep.Count("base-presentation:" + []string{"absolute", "absolute-path", "network-path", "same-dir", "dot-segments-2", "dot-segments-1"}[presentKind(href, base)])
+	return ndoc, location
+}
+
+func presentKind(href, base string) int {
+	switch {
+	case href == base:
+		return 0
+	case strings.HasPrefix(href, "//"):
+		return 2
+	case strings.HasPrefix(href, "/"):
+		return 1
+	case strings.HasPrefix(href, "../../"):
+		return 4
+	case strings.HasPrefix(href, "../"):
+		return 5
+	}
+	return 3
+}
+
 func (h *harness) layout() *layout { return &layout{r: h.r, plain: h.r.Chance(10)} }
 
 // fail records a failing case, or a known one when a listed finding's predicate recognises it.
@@ -500,19 +571,21 @@ func (h *harness) rdfaWriter(n int) {
 			mod := []int{6, 7, 3, 1}[min(take-int(voc[0]-'0'), 3)]
 			h.rep.Count(fmt.Sprintf("rdfa-writer:pattern take=%d voc=%s shape=%d validated=%c", take, voc, shape%mod, flags[k]))
 		}
-		text := h.serialise("rdfa-writer", c.base, mo.doc)
+		pdoc, loc := h.present(mo.doc, c.base)
+		text := h.serialise("rdfa-writer", loc, pdoc)
 		if text == "" {
 			continue
 		}
 		mode := h.mode()
-		res := decodeRdfa(text, c.base, mode)
-		h.compare("rdfa-writer", c.base, text, res, c.g, true, mo.g, true, append(rdfaPreds(mo.doc, c.base), modePreds(mode, c.base)...))
+		res := decodeRdfa(text, loc, mode)
+		h.compare("rdfa-writer", loc, text, res, c.g, true, mo.g, true, append(rdfaPreds(mo.doc, c.base), modePreds(mode, loc)...))
 	}
 }
 
 func (h *harness) rdfaSoup(n int) {
 	type sc struct {
-		base string
+		base string // effective base
+		loc  string // location handed to the decoder (the document may carry a <base href>)
 		doc  *Node
 		line string
 	}
@@ -520,9 +593,9 @@ func (h *harness) rdfaSoup(n int) {
 	var lines []string
 	for i := 0; i < n; i++ {
 		base := vh.Pick(h.r, bases)
-		doc := (&soup{r: h.r, base: base}).rdfaDoc()
-		line := "html.rdfa " + vh.XS(base) + " " + doc.Wire()
-		cases = append(cases, sc{base, doc, line})
+		doc, loc := h.present((&soup{r: h.r, base: base}).rdfaDoc(), base)
+		line := "html.rdfa " + vh.XS(loc) + " " + doc.Wire()
+		cases = append(cases, sc{base, loc, doc, line})
 		lines = append(lines, line)
 	}
 	var answers []string
@@ -534,12 +607,12 @@ func (h *harness) rdfaSoup(n int) {
 		}
 	}
 	for i, c := range cases {
-		text := h.serialise("rdfa-soup", c.base, c.doc)
+		text := h.serialise("rdfa-soup", c.loc, c.doc)
 		if text == "" {
 			continue
 		}
 		mode := h.mode()
-		res := decodeRdfa(text, c.base, mode)
+		res := decodeRdfa(text, c.loc, mode)
 		h.rep.Eval(c.line, len(res.quads) >= 1)
 		h.rep.Count(fmt.Sprintf("rdfa-soup:triples=%d", min(len(res.quads), 8)))
 		var model []Triple
@@ -553,8 +626,8 @@ func (h *harness) rdfaSoup(n int) {
 			}
 		}
 		before := h.rep.Failures()
-		h.compare("rdfa-soup", c.base, text, res, nil, false, model, have, append(rdfaPreds(c.doc, c.base), modePreds(mode, c.base)...))
-		h.maybeShrink(before, "rdfa-soup", c.base, c.doc)
+		h.compare("rdfa-soup", c.loc, text, res, nil, false, model, have, append(rdfaPreds(c.doc, c.base), modePreds(mode, c.loc)...))
+		h.maybeShrink(before, "rdfa-soup", c.loc, c.doc)
 	}
 }
 
@@ -597,19 +670,21 @@ func (h *harness) mdWriter(n int) {
 			// the writer reports that it could not express the graph (blank-node objects and no valid candidate)
 			continue
 		}
-		text := h.serialise("md-writer", c.base, mo.doc)
+		pdoc, loc := h.present(mo.doc, c.base)
+		text := h.serialise("md-writer", loc, pdoc)
 		if text == "" {
 			continue
 		}
 		mode := h.mode()
-		res := decodeMd(text, c.base, mode)
-		h.compare("md-writer", c.base, text, res, c.g, true, mo.g, true, append(mdPreds(mo.doc), modePreds(mode, c.base)...))
+		res := decodeMd(text, loc, mode)
+		h.compare("md-writer", loc, text, res, c.g, true, mo.g, true, append(mdPreds(mo.doc), modePreds(mode, loc)...))
 	}
 }
 
 func (h *harness) mdSoup(n int) {
 	type sc struct {
-		base string
+		base string // effective base
+		loc  string // location handed to the decoder (the document may carry a <base href>)
 		doc  *Node
 		line string
 	}
@@ -617,9 +692,9 @@ func (h *harness) mdSoup(n int) {
 	var lines []string
 	for i := 0; i < n; i++ {
 		base := vh.Pick(h.r, basesNoFragment)
-		doc := (&soup{r: h.r, base: base}).mdDoc()
-		line := "html.md " + vh.XS(base) + " " + doc.Wire()
-		cases = append(cases, sc{base, doc, line})
+		doc, loc := h.present((&soup{r: h.r, base: base}).mdDoc(), base)
+		line := "html.md " + vh.XS(loc) + " " + doc.Wire()
+		cases = append(cases, sc{base, loc, doc, line})
 		lines = append(lines, line)
 	}
 	var answers []string
@@ -631,12 +706,12 @@ func (h *harness) mdSoup(n int) {
 		}
 	}
 	for i, c := range cases {
-		text := h.serialise("md-soup", c.base, c.doc)
+		text := h.serialise("md-soup", c.loc, c.doc)
 		if text == "" {
 			continue
 		}
 		mode := h.mode()
-		res := decodeMd(text, c.base, mode)
+		res := decodeMd(text, c.loc, mode)
 		h.rep.Eval(c.line, len(res.quads) >= 1)
 		h.rep.Count(fmt.Sprintf("md-soup:triples=%d", min(len(res.quads), 8)))
 		var model []Triple
@@ -653,8 +728,8 @@ func (h *harness) mdSoup(n int) {
 			}
 		}
 		before := h.rep.Failures()
-		h.compare("md-soup", c.base, text, res, nil, false, model, have, append(mdPreds(c.doc), modePreds(mode, c.base)...))
-		h.maybeShrink(before, "md-soup", c.base, c.doc)
+		h.compare("md-soup", c.loc, text, res, nil, false, model, have, append(mdPreds(c.doc), modePreds(mode, c.loc)...))
+		h.maybeShrink(before, "md-soup", c.loc, c.doc)
 	}
 }
 
@@ -792,13 +867,14 @@ func (h *harness) jsonldFamily(n int) {
 	}
 	for i, c := range cases {
 		h.rep.Eval(c.line, len(c.g) >= 2)
-		text := h.serialise("jsonld", c.base, c.doc)
+		pdoc, loc := h.present(c.doc, c.base)
+		text := h.serialise("jsonld", loc, pdoc)
 		if text == "" {
 			continue
 		}
 		mode := h.mode()
-		res := decodeJsonld(text, c.base, mode)
-		h.compare("jsonld", c.base, text, res, c.g, true, nil, false, modePreds(mode, c.base))
+		res := decodeJsonld(text, loc, mode)
+		h.compare("jsonld", loc, text, res, c.g, true, nil, false, modePreds(mode, loc))
 		if *nomodel || res.panic != "" || res.err != "" {
 			continue
 		}
@@ -826,7 +902,7 @@ func (h *harness) jsonldFamily(n int) {
 			}
 		}
 		if bad != "" || !vh.Isomorphic(res.quads, viaModel) {
-			h.fail("disagreement", "jsonld", c.base, text, "htmljsonld differs from decoding the scripts selected by the model "+bad, showQuads(res.quads), showQuads(viaModel), modePreds(mode, c.base))
+			h.fail("disagreement", "jsonld", loc, text, "htmljsonld differs from decoding the scripts selected by the model "+bad, showQuads(res.quads), showQuads(viaModel), modePreds(mode, loc))
 		}
 	}
 }
@@ -912,7 +988,8 @@ func (h *harness) combined(n int) {
 			kids = append(kids, rg...)
 		}
 		doc := E("html", r1.doc.Attrs, E("head", nil), E("body", body.Attrs, kids...))
-		text := h.serialise("combined", c.base, doc)
+		doc, loc := h.present(doc, c.base)
+		text := h.serialise("combined", loc, doc)
 		if text == "" {
 			continue
 		}
@@ -921,32 +998,32 @@ func (h *harness) combined(n int) {
 		if capture {
 			cm = 1
 		}
-		all := decodeAll(text, c.base, capture)
-		j := decodeJsonld(text, c.base, cm)
-		m := decodeMd(text, c.base, cm)
-		r := decodeRdfa(text, c.base, cm)
+		all := decodeAll(text, loc, capture)
+		j := decodeJsonld(text, loc, cm)
+		m := decodeMd(text, loc, cm)
+		r := decodeRdfa(text, loc, cm)
 		if all.panic != "" || j.panic != "" || m.panic != "" || r.panic != "" {
-			h.fail("violation", "combined", c.base, text, "decoder panicked: "+all.panic+j.panic+m.panic+r.panic, "", "", nil)
+			h.fail("violation", "combined", loc, text, "decoder panicked: "+all.panic+j.panic+m.panic+r.panic, "", "", nil)
 			continue
 		}
 		// chain model: the sub-decoders' counts and error flags predict the combined stream
 		chainLines = append(chainLines, fmt.Sprintf("html.chain 1 %d:%s %d:%s %d:%s", len(j.quads), vh.B01(j.err != ""), len(m.quads), vh.B01(m.err != ""), len(r.quads), vh.B01(r.err != "")))
-		pend = append(pend, pending{c.base, text, len(chainLines) - 1, len(all.quads), all.err != ""})
+		pend = append(pend, pending{loc, text, len(chainLines) - 1, len(all.quads), all.err != ""})
 		if c.breakJSON {
 			h.rep.Count("combined:broken-jsonld")
 			if all.err == "" {
-				h.fail("violation", "combined", c.base, text, "a failing sub-decoder did not fail the combined decoder", "", "", nil)
+				h.fail("violation", "combined", loc, text, "a failing sub-decoder did not fail the combined decoder", "", "", nil)
 			}
 			continue
 		}
 		if all.err != "" || j.err != "" || m.err != "" || r.err != "" {
-			h.fail("violation", "combined", c.base, text, "decoder error: "+all.err+j.err+m.err+r.err, "", "", nil)
+			h.fail("violation", "combined", loc, text, "decoder error: "+all.err+j.err+m.err+r.err, "", "", nil)
 			continue
 		}
 		// union: the combined stream is the three streams one after the other
 		nj, nm := len(j.quads), len(m.quads)
 		if len(all.quads) != nj+nm+len(r.quads) {
-			h.fail("violation", "combined", c.base, text, fmt.Sprintf("combined yields %d statements, the sub-decoders %d+%d+%d", len(all.quads), nj, nm, len(r.quads)), showQuads(all.quads), "", nil)
+			h.fail("violation", "combined", loc, text, fmt.Sprintf("combined yields %d statements, the sub-decoders %d+%d+%d", len(all.quads), nj, nm, len(r.quads)), showQuads(all.quads), "", nil)
 			continue
 		}
 		segs := [][]rdf.Quad{all.quads[:nj], all.quads[nj : nj+nm], all.quads[nj+nm:]}
@@ -958,7 +1035,7 @@ func (h *harness) combined(n int) {
 			}
 		}
 		if !okSeg {
-			h.fail("violation", "combined", c.base, text, "a segment of the combined stream differs from its sub-decoder's stream", showQuads(all.quads), showQuads(append(append(append([]rdf.Quad{}, j.quads...), m.quads...), r.quads...)), nil)
+			h.fail("violation", "combined", loc, text, "a segment of the combined stream differs from its sub-decoder's stream", showQuads(all.quads), showQuads(append(append(append([]rdf.Quad{}, j.quads...), m.quads...), r.quads...)), nil)
 			continue
 		}
 		// no identification across syntaxes, directly on the nodes the combined decoder handed out
@@ -975,14 +1052,14 @@ func (h *harness) combined(n int) {
 			}
 		}
 		if crossed {
-			h.fail("violation", "combined", c.base, text, "a blank node from one syntax TermEquals a blank node from another", showQuads(all.quads), "", nil)
+			h.fail("violation", "combined", loc, text, "a blank node from one syntax TermEquals a blank node from another", showQuads(all.quads), "", nil)
 			continue
 		}
 		// and against the generating graphs: disjoint union, labels kept apart per syntax
 		sp := newBnSpace()
 		want := append(append(sp.quads(c.gj, "j:"), sp.quads(c.gm, "m:")...), sp.quads(c.gr, "r:")...)
 		if !vh.Isomorphic(all.quads, want) {
-			h.fail("violation", "combined", c.base, text, "combined result is not the disjoint union of the three marked-up graphs", showQuads(all.quads), showQuads(want), append(rdfaPreds(doc, c.base), mdPreds(doc)...))
+			h.fail("violation", "combined", loc, text, "combined result is not the disjoint union of the three marked-up graphs", showQuads(all.quads), showQuads(want), append(rdfaPreds(doc, c.base), mdPreds(doc)...))
 		}
 	}
 	res, err := h.drv.RunParallel(chainLines)
